@@ -53,6 +53,8 @@ import (
 	"os"
 	"os/exec"
 	"path/filepath"
+	"sort"
+	"strconv"
 	"strings"
 )
 
@@ -391,6 +393,71 @@ func (w *walker) isIfaceCall(e ast.Expr) (*types.Func, bool) {
 	return f, f != nil
 }
 
+// fieldLabel: how a struct field is named inside a graph key.  An exported field keeps its name.  An
+// UNEXPORTED field is named by its TYPE ("~<type>", plus "#k" when several unexported fields of the struct
+// share that type): a harmless rename of an unexported field must not change the reviewed keys (false alarms
+// C04 vs C15-indh-h10 / C09-h-rename, session 5).
+func fieldLabel(st *types.Struct, name string) string {
+	if ast.IsExported(name) || st == nil {
+		return name
+	}
+	var ft types.Type
+	for i := 0; i < st.NumFields(); i++ {
+		if st.Field(i).Name() == name {
+			ft = st.Field(i).Type()
+		}
+	}
+	if ft == nil {
+		return name
+	}
+	same, ord := 0, 0
+	for i := 0; i < st.NumFields(); i++ {
+		f := st.Field(i)
+		if !f.Exported() && types.Identical(f.Type(), ft) {
+			same++
+			if f.Name() == name {
+				ord = same
+			}
+		}
+	}
+	lbl := "~" + typeName(ft)
+	if same > 1 {
+		lbl += "#" + strconv.Itoa(ord)
+	}
+	return lbl
+}
+
+// ifaceLabel: an exported interface keeps its name; an UNEXPORTED interface of cell2's own code is named by
+// its method set ("pkg.{m1,m2}"), so that renaming the type does not change the reviewed keys.
+func ifaceLabel(n *types.Named) string {
+	if n.Obj() == nil || n.Obj().Exported() || n.Obj().Pkg() == nil ||
+		!(strings.HasPrefix(n.Obj().Pkg().Path(), "github.com/dfklegend/cell2") || strings.HasPrefix(n.Obj().Pkg().Path(), "mmo")) {
+		return typeName(n)
+	}
+	it, ok := n.Underlying().(*types.Interface)
+	if !ok {
+		return typeName(n)
+	}
+	var ms []string
+	for i := 0; i < it.NumMethods(); i++ {
+		ms = append(ms, it.Method(i).Name())
+	}
+	sort.Strings(ms)
+	return shortPath(n.Obj().Pkg().Path()) + ".{" + strings.Join(ms, ",") + "}"
+}
+
+func structOfType(t types.Type) *types.Struct {
+	for {
+		if p, ok := t.Underlying().(*types.Pointer); ok {
+			t = p.Elem()
+			continue
+		}
+		break
+	}
+	st, _ := t.Underlying().(*types.Struct)
+	return st
+}
+
 func (w *walker) ifaceDesc(e ast.Expr, f *types.Func) (string, *types.Package) {
 	sel := unparen(e).(*ast.SelectorExpr)
 	s := w.info.Selections[sel]
@@ -398,11 +465,11 @@ func (w *walker) ifaceDesc(e ast.Expr, f *types.Func) (string, *types.Package) {
 	recv := s.Recv()
 	if sig, ok := f.Type().(*types.Signature); ok && sig.Recv() != nil {
 		if n := namedOf(sig.Recv().Type()); n != nil {
-			return "iface " + typeName(n) + "." + f.Name(), n.Obj().Pkg()
+			return "iface " + ifaceLabel(n) + "." + f.Name(), n.Obj().Pkg()
 		}
 	}
 	if n := namedOf(recv); n != nil {
-		return "iface " + typeName(n) + "." + f.Name(), n.Obj().Pkg()
+		return "iface " + ifaceLabel(n) + "." + f.Name(), n.Obj().Pkg()
 	}
 	return "iface ?." + f.Name(), f.Pkg()
 }
@@ -421,7 +488,7 @@ func (w *walker) dynDesc(e ast.Expr) string {
 	}
 	if sel, ok := e.(*ast.SelectorExpr); ok {
 		if s := w.info.Selections[sel]; s != nil && s.Kind() == types.FieldVal {
-			return "field " + typeName(s.Recv()) + "." + sel.Sel.Name + suffix
+			return "field " + typeName(s.Recv()) + "." + fieldLabel(structOfType(s.Recv()), sel.Sel.Name) + suffix
 		}
 		if v, ok := w.info.Uses[sel.Sel].(*types.Var); ok && v.Pkg() != nil { // package-level variable of another package
 			return "var " + shortPath(v.Pkg().Path()) + "." + v.Name() + suffix
@@ -791,7 +858,7 @@ func storedField(info *types.Info, stack []ast.Node, id *ast.Ident) string {
 			return ""
 		}
 		if s := info.Selections[sel]; s != nil && s.Kind() == types.FieldVal {
-			return "field " + typeName(s.Recv()) + "." + sel.Sel.Name
+			return "field " + typeName(s.Recv()) + "." + fieldLabel(structOfType(s.Recv()), sel.Sel.Name)
 		}
 		return ""
 	}
@@ -811,7 +878,7 @@ func storedField(info *types.Info, stack []ast.Node, id *ast.Ident) string {
 		if cl, ok := stack[n-3].(*ast.CompositeLit); ok {
 			if st, tn := structOf(cl); st != nil {
 				if k, ok := parent.Key.(*ast.Ident); ok {
-					return "field " + tn + "." + k.Name
+					return "field " + tn + "." + fieldLabel(st, k.Name)
 				}
 			}
 		}
@@ -819,7 +886,7 @@ func storedField(info *types.Info, stack []ast.Node, id *ast.Ident) string {
 		if st, tn := structOf(parent); st != nil {
 			for i, e := range parent.Elts {
 				if e == ast.Expr(id) && i < st.NumFields() {
-					return "field " + tn + "." + st.Field(i).Name()
+					return "field " + tn + "." + fieldLabel(st, st.Field(i).Name())
 				}
 			}
 		}
@@ -1085,7 +1152,7 @@ func (w *walker) stmt(c ctx, s ast.Stmt) {
 			if fl, ok := unparen(e).(*ast.FuncLit); ok && len(x.Lhs) == len(x.Rhs) {
 				if sel, ok := unparen(x.Lhs[i]).(*ast.SelectorExpr); ok {
 					if sl := w.info.Selections[sel]; sl != nil && sl.Kind() == types.FieldVal {
-						w.useFunc(c, fl, "assigned:field "+typeName(sl.Recv())+"."+sel.Sel.Name, "unknown")
+						w.useFunc(c, fl, "assigned:field "+typeName(sl.Recv())+"."+fieldLabel(structOfType(sl.Recv()), sel.Sel.Name), "unknown")
 						continue
 					}
 				}
